@@ -194,7 +194,11 @@ def stepFloatTable (tbl : List (Nat × FInst F)) (factor : Rat) (typeTag : Strin
     match inst.st.filter xs with
     | none => done tbl (report d op { model := "PANIC", impl := implS, kind := fkindName inst.st })
     | some (st', y) =>
-      let partnerInputs := inst.partner.bind (fun pid => (get pid).map (fun pi => fheads pi.hist))
+      -- the reconstruction clause applies only if this filter was fed exactly the partner's outputs
+      let sameBits (a b : List (List F)) : Bool :=
+        a.length == b.length && (a.zip b).all (fun p => p.1.map toBitsNat == p.2.map toBitsNat)
+      let partnerInputs := inst.partner.bind (fun pid => (get pid).bind (fun pi =>
+        if sameBits pi.outs hist then some (fheads pi.hist) else none))
       let preset := true
       let clauses := match implOut with
         | some yi => specFloat partnerInputs st' hist yi preset
@@ -202,7 +206,7 @@ def stepFloatTable (tbl : List (Nat × FInst F)) (factor : Rat) (typeTag : Strin
       let d := d.flag (if hist.length > 1 then "multi" else "first")
       let d := match clauses.find? (fun c => c.name == "C18.outlier-replaced") with | some _ => d.flag "hampel.outlier" | none => d
       let d := match clauses.find? (fun c => c.name == "C18.inlier-passes") with | some _ => d.flag "hampel.inlier" | none => d
-      done (put id { inst with st := st', hist := hist, last := some implOut })
+      done (put id { inst with st := st', hist := hist, last := some implOut, outs := inst.outs ++ [implOut.getD []] })
         (report d op { model := frenderOut (some y), impl := implS, clauses := clauses, kind := fkindName inst.st })
   | ["cfg", id] => do
     let inst ← get (← id.toNat?)
@@ -210,7 +214,7 @@ def stepFloatTable (tbl : List (Nat × FInst F)) (factor : Rat) (typeTag : Strin
   | ["reset", id] => do
     let id ← id.toNat?
     let inst ← get id
-    done (put id { inst with st := inst.st.reset, hist := [], last := none })
+    done (put id { inst with st := inst.st.reset, hist := [], last := none, outs := [] })
       (report (d.flag "reset") op { model := "ok", impl := implS, kind := fkindName inst.st })
   | ["clone", id, nid] => do
     let inst ← get (← id.toNat?)
